@@ -210,8 +210,9 @@ class Concurrent(Stream):
     requires = []
 
     def generate(self, rng, tier):
-        n = 300 if tier == "quick" else 5000
-        return [{"family": "nas_cipher", "goroutines": 8, "iters": n}, {"family": "nas_mac", "goroutines": 8, "iters": n}]
+        n = 600 if tier == "quick" else 8000
+        return [{"family": "nas_cipher", "goroutines": 8, "iters": n}, {"family": "nas_mac", "goroutines": 8, "iters": n},
+                {"family": "nas_cipher_aes", "goroutines": 16, "iters": 10 * n}, {"family": "nas_mac_aes", "goroutines": 16, "iters": 10 * n}]
 
     def classify(self, c, o):
         return c["family"] + (":same" if o.get("different") == 0 else ":different")
